@@ -875,3 +875,45 @@ Example bind_examples :
   ChBind.bind_go (ChBindProofs.values_stmt_bound "x$1y") [" or 1 or "]
   = Some "SELECT val FROM t WHERE ((val) == ('x' or 1 or 'y')) and ((key) == (' or 1 or '))".
 Proof. split; [exact (proj2 ChBindProofs.bind_ph_free_example)|split; [vm_compute; reflexivity|exact ChBindProofs.bound_label_witness]]. Qed.
+
+(* ================= round 7 (seeded C10-g): a statement template with NAMED placeholders filled by successive strings.ReplaceAll =================
+   proofs/TemplateFillProofs.v, over Quote.replace_all (= strings.Replace(s, old, new, -1), the function of esc_is_sequential_replace);
+   regex_tpl is the seeded constant regexMapSql byte for byte, regex_fill_seq the four successive replacements (col, re, labels, id),
+   regex_fill_text the concatenation the code as it stands prints (one Sprintf with a constant format) *)
+From Qryn Require proofs.TemplateFillProofs.
+
+(* a later substitution leaves alone ANY text that lacks the first byte of its search string ... *)
+Theorem later_substitution_leaves_text_without_its_first_byte_alone : forall c o new a,
+  TemplateFillProofs.lacks c a = true -> replace_all (String c o) new a = a.
+Proof. exact TemplateFillProofs.replace_all_leaves_text_alone. Qed.
+Print Assumptions later_substitution_leaves_text_without_its_first_byte_alone.
+
+(* ... so for ALL operands without an opening brace the successive fill of the seeded template is the text the code prints today ... *)
+Theorem successive_template_fill_is_the_text_only_without_braces : forall col re labels id,
+  TemplateFillProofs.lacks TemplateFillProofs.lb col = true -> TemplateFillProofs.lacks TemplateFillProofs.lb (quote_seq re) = true ->
+  TemplateFillProofs.lacks TemplateFillProofs.lb labels = true -> TemplateFillProofs.lacks TemplateFillProofs.lb id = true ->
+  TemplateFillProofs.regex_fill_seq col re labels id = TemplateFillProofs.regex_fill_text col re labels id.
+Proof. exact TemplateFillProofs.successive_fill_is_the_text_without_braces. Qed.
+Print Assumptions successive_template_fill_is_the_text_only_without_braces.
+
+(* ... and the request decides whether there is one: for the expression (\d+){labels}(\w+) with groups or / Or the successive fill still
+   lexes, with another token skeleton than for the marker in the same position, while the text printed today keeps its skeleton.
+   Hence: text that went through a replacement is unclassified in the census, and the placeholder words of the code under test are
+   harvested and tried at every position *)
+Theorem successive_template_fill_refuted :
+  exists v,
+    has_err (lex (TemplateFillProofs.regex_fill_seq "string" (TemplateFillProofs.expr v) TemplateFillProofs.groups "1")) = false /\
+    skeleton (lex (TemplateFillProofs.regex_fill_seq "string" (TemplateFillProofs.expr v) TemplateFillProofs.groups "1"))
+      <> skeleton (lex (TemplateFillProofs.regex_fill_seq "string" (TemplateFillProofs.expr "zqxmark") TemplateFillProofs.groups "1")) /\
+    skeleton (lex (TemplateFillProofs.regex_fill_text "string" (TemplateFillProofs.expr v) TemplateFillProofs.groups "1"))
+      = skeleton (lex (TemplateFillProofs.regex_fill_text "string" (TemplateFillProofs.expr "zqxmark") TemplateFillProofs.groups "1")).
+Proof. exact TemplateFillProofs.successive_fill_refuted. Qed.
+Print Assumptions successive_template_fill_refuted.
+
+(* hypotheses met by a real value (quote, percent sign, backslashes); {id} inside the expression: one literal, other bytes *)
+Example template_fill_examples :
+  TemplateFillProofs.regex_fill_seq "string" "(\\d+)'%s\\" TemplateFillProofs.groups "1"
+    = TemplateFillProofs.regex_fill_text "string" "(\\d+)'%s\\" TemplateFillProofs.groups "1" /\
+  TemplateFillProofs.regex_fill_seq "string" "a{id}b" TemplateFillProofs.groups "1"
+    = TemplateFillProofs.regex_fill_text "string" "a1b" TemplateFillProofs.groups "1".
+Proof. split; [exact (proj2 (proj2 (proj2 (proj2 TemplateFillProofs.successive_fill_example))))|exact TemplateFillProofs.successive_fill_changes_values]. Qed.
